@@ -82,6 +82,41 @@ func c11Profile(tier string) *eng.Profile {
 	return p
 }
 
+// c11AfterMerge: power loss during a commit that follows a successful Merge (and a reopen): the
+// durability of ordinary transactions must not depend on what ran before them.
+func c11AfterMergeProfile(tier string) *eng.Profile {
+	ops := func(cfg core.Cfg) []core.Op {
+		return []core.Op{
+			up(core.Call{F: "Put", B: bKV, K: "a", V: "m1"}, core.Call{F: "Put", B: bKV, K: "ab", V: "m2"}, core.Call{F: "Put", B: bKV, K: "c", V: "m3"}),
+			up(core.Call{F: "Put", B: bKV, K: "a", V: "x"}),
+			up(core.Call{F: "Delete", B: bKV, K: "ab"}),
+			{Kind: "merge"},
+			{Kind: "reopen"},
+		}
+	}
+	p := &eng.Profile{ID: "C11", Name: "powerloss-after-merge",
+		Cfgs:  []core.Cfg{{Mode: core.KV, RW: core.F, Start: core.F, Sync: true, Seg: 100}, {Mode: core.KV, RW: core.M, Start: core.M, Sync: true, Seg: 100}, {Mode: core.K, RW: core.F, Start: core.F, Sync: true, Seg: 100}},
+		Ops:   ops,
+		Obs:   mixedObsFor,
+		Depth: 4,
+	}
+	p.Run = func(p *eng.Profile, cfg core.Cfg, hist []core.Op, leaf *eng.Leaf) {
+		eng.CrashLeaf(p, cfg, hist, leaf, eng.CrashOpt{Prop: "C11", PowerLoss: true, OnlyLastOp: true})
+		for _, o := range hist[:len(hist)-1] {
+			if o.Kind == "merge" && hist[len(hist)-1].IsWrite() {
+				if leaf.Features == nil {
+					leaf.Features = map[string]int{}
+				}
+				leaf.Features["commit-after-merge"]++
+			}
+		}
+	}
+	if tier == "thorough" {
+		p.Depth = 5
+	}
+	return p
+}
+
 // ---------------------------------------------------------------- C16: crash during Merge
 
 func c16Profile(tier string) *eng.Profile {
@@ -135,6 +170,7 @@ func init() {
 	profileBuilders = append(profileBuilders, func(tier string) {
 		Register(c10Profile(tier))
 		Register(c11Profile(tier))
+		Register(c11AfterMergeProfile(tier))
 		Register(c16Profile(tier))
 	})
 	crashExtra := func(r *Run) {
@@ -151,6 +187,8 @@ func init() {
 		r.Rule = "same workloads with SyncEnable=true; at every event of the last op the power-loss images are built: each file reverts to its content at its last sync, every subset of its later writes is re-applied (the last kept one possibly torn), never-synced files present or absent, removals undone or not (cartesian product over files, capped at 256 images per point and counted when capped); each image is recovered and compared as in C10"
 		r.Assume = []string{"a sync of a file makes its directory entry and size durable (taken from the property)"}
 		r.Explore(c11Profile(r.Tier), "C11")
+		r.Required = append(r.Required, "commit-after-merge")
+		r.Explore(c11AfterMergeProfile(r.Tier), "C11")
 	}
 	Registry["C16"] = func(r *Run) {
 		crashExtra(r)
